@@ -2,7 +2,7 @@
 """(re)generates section 8 of DESIGN.md from tools/design_section8.md and a seeded-results file"""
 import sys, subprocess, re
 res = sys.argv[1]
-tab = subprocess.run(['python3', '/verif/tools/seeded_table.py', res], capture_output=True, text=True).stdout
+tab = subprocess.run(['python3', '/verif/tools/seeded_table.py', res] + sys.argv[2:3], capture_output=True, text=True).stdout
 summary, _, table = tab.partition('\n\n')
 sec = open('/verif/tools/design_section8.md').read()
 sec = sec.replace('@SEEDED_SUMMARY@', summary.strip()).replace('@SEEDED_TABLE@', table.strip())
